@@ -175,7 +175,7 @@ Proof. exact @noprefix_refuted. Qed.
 (* ---- tie to the current source (tools/ga2coq, coq/gen/GenDeleg.v): the bodies of the trait
         impls as they stand in the source now are the delegations the model implements ---- *)
 From Coq Require Import String.
-From GA Require Import Deleg DelegTie.
+From GA Require Import Deleg.
 From GAGen Require Import GenDeleg.
 Local Open Scope string_scope.
 Theorem C13_source_delegations :
@@ -189,11 +189,11 @@ Theorem C13_source_delegations :
   lookup "BorrowMut<[T]>::borrow_mut" gen_delegations = Some (DView (VAsMutSlice "self")) /\
   lookup "AsRef<[T]>::as_ref" gen_delegations = Some (DView (VAsSlice "self")) /\
   lookup "AsMut<[T]>::as_mut" gen_delegations = Some (DView (VAsMutSlice "self")).
-Proof. rewrite !tie_deleg_of. repeat split. Qed.
+Proof. repeat split. Qed.
 
 (* ---- T1: which trait methods are implemented (coq/gen/GenSigs.v gen_impl_methods) ---- *)
 From Coq Require Import String.
-From GA Require Import SigTie.
+From GA Require Import SigDefs.
 From GAGen Require Import GenSigs.
 Local Open Scope string_scope.
 
@@ -212,12 +212,12 @@ Proof. repeat split. Qed.
 Theorem C13_source_impl_bounds :
   Forall (fun tr => bounds_of (tr ++ " for GenericArray<T,N>") = Some ["N:ArrayLength"; ("T:" ++ tr)%string])
          ["Default"; "Clone"; "PartialEq"; "Eq"; "PartialOrd"; "Ord"; "Debug"; "Hash"].
-Proof. exact tie_structural_bounds. Qed.
+Proof. repeat constructor. Qed.
 
 (* ---- T1: the one-expression bodies this property's code consists of besides the modelled core, as they stand
         in the source now (coq/gen/GenSigs.v gen_thin_bodies) ---- *)
 From Coq Require Import String.
-From GA Require Import SigTie.
+From GA Require Import SigDefs.
 From GAGen Require Import GenSigs.
 Local Open Scope string_scope.
 
